@@ -525,7 +525,9 @@ class HedSchema(HedSchemaBase):
         prefix_tag_adj = len(namespace)
 
         try:
-            found_entry, current_slash_index = self._find_tag_subfunction(tag, working_tag, prefix_tag_adj)
+            # Walk the tag as written: every lookup folds its own key, and the indexes that come back are
+            # used on clean_tag, whose case-folded form can have a different length (e.g. 'Pre\u00df').
+            found_entry, current_slash_index = self._find_tag_subfunction(tag, clean_tag, prefix_tag_adj)
         except self._TagIdentifyError as e:
             issue = e.issue
             return None, None, issue
